@@ -22,8 +22,8 @@
 
    Ghost fields (never read by a guard or an effect of a non-ghost field): the
    thread id paired with each item, [arg], [lin] (order in which calls took
-   effect), [applied], [junk] (indexes left behind by a failed / skipped
-   deletion).  No proofs in this file. *)
+   effect), [applied], [junk] (index manifests that were already there at the
+   start, or were left behind by a failed / skipped deletion).  No proofs in this file. *)
 From Oras Require Import Base.Prelude Model.Referrers.
 
 Definition tid := nat.
@@ -233,7 +233,7 @@ Fixpoint run (skipgc : bool) (s : state) (tr : list event) : option state :=
   end.
 
 Definition init (reg0 : option index) (store0 : list index) : state :=
-  mkSt None false [] false [] (fun _ => Idle) reg0 store0 (fun _ => Add empty_desc) [] [] false.
+  mkSt None false [] false [] (fun _ => Idle) reg0 store0 (fun _ => Add empty_desc) [] store0 false.
 
 (* set view of an index: non-empty keys *)
 Definition memb (r : option index) (k : N) : bool := negb (k =? 0) && has_key k (idx r).
